@@ -90,6 +90,11 @@ structure DecSt where
   reads : Nat := 0                 -- calls of the underlying reader so far
   deriving Repr
 
+/-- An upper bound on the number of further calls the scripted reader can answer with data or with a
+script entry: every call consumes at least one byte or one entry (used as fuel; the Go loops are
+unbounded and terminate because the script ends in a sticky error). -/
+def DecSt.pending (st : DecSt) : Nat := (st.script.map fun r => r.data.length + 1).sum
+
 /-- One call of the scripted underlying reader with a buffer of `want` bytes. -/
 def DecSt.rawRead (st : DecSt) (want : Nat) : DecSt × Bytes × Option Err :=
   match st.script with
@@ -120,7 +125,7 @@ def DecSt.refill (st : DecSt) (plen : Nat) (fuel : Nat) : DecSt :=
       let nn := plen / 3 * 4
       let nn := if nn < 4 then 4 else nn
       let nn := if nn > 1024 then 1024 else nn
-      let (st, data, err) := st.filteredRead (nn - st.buf.length) (st.script.length + 2)
+      let (st, data, err) := st.filteredRead (nn - st.buf.length) (st.pending + 2)
       ({ st with buf := st.buf ++ data, readErr := err }).refill plen fuel
     else st
 
@@ -130,7 +135,7 @@ def decErr (r : DRes) : Option Err := r.err.map errCorrupt
 def decRead (e : Encoding) (st : DecSt) (plen : Nat) : DecSt × Bytes × Option Err :=
   if st.out.length > 0 then ({ st with out := st.out.drop plen }, st.out.take plen, none) else
   if st.err.isSome then (st, [], st.err) else
-  let st := st.refill plen (st.script.length + 6)
+  let st := st.refill plen (st.pending + 6)
   if st.buf.length < 4 then
     let finish (st : DecSt) : DecSt × Bytes × Option Err :=
       let err := if st.readErr = some errEOF ∧ st.buf.length > 0 then some errUnexpectedEOF else st.readErr
